@@ -33,6 +33,7 @@ fn main() {
         Some("cchan") => m_cchan::run(),
         Some("cchan0") => m_cchan::run0(),
         Some("timing") => m_timing::run(),
+        Some("timing2") => m_timing::run2(),
         Some("signals") => m_signals::run(),
         Some("transient") => m_transient::run(),
         Some("seq") => m_seq::run(args.get(2).expect("scenario file")),
